@@ -94,6 +94,8 @@ class OracleOnly(Suite):
         n = self.n_quick if tier == "quick" else self.n_thorough
         for _ in range(n):
             case = pipes.gen_case(random.Random(rng.getrandbits(64)), tier, **self.opts)
+            if pipes.est_rows(case) > pipes.MAX_EST_ROWS:
+                continue
             for c in case["meta"].get("calls", []):
                 self.distribution[c] = self.distribution.get(c, 0) + 1
             yield {"tables": case["tables"], "pipe": case["pipe"], "meta": case.get("meta", {})}
